@@ -19,7 +19,7 @@ META = {
     "c39_bin_history (valid' implies requests[grant'] of the previous cycle), c39_fair_onehot/c39_fair_bin (a "
     "continuously requesting input is served within count cycles) are proved for every count, every state with "
     "grant index < count and every request history; c39_pick_order ties `pick` to the If-chain order of the source; "
-    "the model is tied to the code by comparing grant and valid every cycle for counts 1..9 (thorough: up to 17 and "
+    "the model is tied to the code by comparing grant and valid every cycle for counts 1..16 (thorough: up to 24 and "
     "all request sequences of length <= 4 for counts <= 3)",
     "level_note": "trusted: Lean kernel, axioms propext/Quot.sound; Amaranth semantics (Switch first match, later "
     "assignment wins) and pysim; harness glue. 'grants none' with no request is read as valid low: the raw grant "
@@ -161,8 +161,8 @@ def _history(rng, n: int, length: int, style: str) -> list[int]:
 def gen_cases(ctx: Check) -> list[Case]:
     rng = ctx.rng("gen")
     cases: list[Case] = []
-    counts = ctx.pick([1, 2, 3, 4, 5, 6, 8, 9], [1, 2, 3, 4, 5, 6, 7, 8, 9, 12, 16, 17])
-    length = ctx.pick(150, 600)
+    counts = ctx.pick([1, 2, 3, 4, 5, 6, 8, 9, 13, 16], [1, 2, 3, 4, 5, 6, 7, 8, 9, 12, 13, 16, 17, 24])
+    length = ctx.pick(300, 800)
     for comp in ("onehot", "bin"):
         for n in counts:
             full = (1 << n) - 1
@@ -203,12 +203,25 @@ def nontrivial(case: Case, out: list[str]) -> bool:
     return multi and any(r == 0 for r in reqs) and any(r != 0 for r in reqs)
 
 
+def _corpus(pid: str) -> list[Case]:
+    """directed cases / minimised past failures from corpus/<pid>/*.json, run first"""
+    import json
+
+    from ..common import CORPUS
+
+    out = []
+    for f in sorted((CORPUS / pid).glob("*.json")):
+        b = json.loads(f.read_text())
+        out.append(Case(b["cfg"], list(b["ops"]), b.get("desc", {}), "corpus"))
+    return out
+
+
 def run(ctx: Check):
     ctx.rule = ("case = (arbiter class, count, request history from reset); non-trivial = history with a cycle of "
                 ">= 2 simultaneous requesters, a cycle without requests and a cycle with requests; distinct by "
                 "(class, count, history)")
     ctx.proof_stage()
-    cases = gen_cases(ctx)
+    cases = _corpus("C39") + gen_cases(ctx)
     for c in cases:
         ctx.count(f"comp_{c.desc['comp']}")
         ctx.count(f"count_{c.desc['n']}")
